@@ -488,6 +488,11 @@ type ExprSpec struct {
 	Num    string
 	LP, RP string
 	Fn     string // token of the unqualified alternative Fn LP e RP ("" if absent)
+	// Twin: a second expression rule "f" over the SAME operator tokens with its own levels and
+	// associativities, reached from e through the atom TL f TR ("" / nil if absent). Precedence is
+	// a property of productions, not of tokens: each rule follows its own table.
+	Twin   map[string]OpInfo
+	TL, TR string
 }
 
 type OpInfo struct {
@@ -537,6 +542,33 @@ func GenExpr(t *rapid.T) *ExprSpec {
 		es.Fn = newTok()
 		prods = append(prods, Prod{Terms: []Term{{Kind: KSym, Name: es.Fn, IsTok: true}, {Kind: KSym, Name: es.LP, IsTok: true}, ruleTerm("e"), {Kind: KSym, Name: es.RP, IsTok: true}}})
 	}
+	var twin *Rule
+	if ri(t, 0, 2, "twin") == 0 {
+		es.Twin = map[string]OpInfo{}
+		es.TL, es.TR = newTok(), newTok()
+		// the twin's levels: the same numbers dealt out differently (per original level, so that
+		// one level keeps one associativity)
+		lvPerm := rapid.Permutation(lv).Draw(t, "twinlevels")
+		remap := map[int]OpInfo{}
+		for i, l := range lv {
+			remap[l] = OpInfo{Level: lvPerm[i], Right: rapid.Bool().Draw(t, "twinright")}
+		}
+		tw := Rule{Name: "f"}
+		for _, pr := range prods {
+			if len(pr.Terms) == 3 && pr.Prec > 0 {
+				op := pr.Terms[1].Name
+				ni := remap[pr.Prec]
+				es.Twin[op] = ni
+				tw.Prods = append(tw.Prods, Prod{Terms: []Term{ruleTerm("f"), pr.Terms[1], ruleTerm("f")}, Prec: ni.Level, Right: ni.Right})
+			}
+		}
+		tw.Prods = append(tw.Prods,
+			Prod{Terms: []Term{{Kind: KSym, Name: es.Num, IsTok: true}}},
+			Prod{Terms: []Term{{Kind: KSym, Name: es.LP, IsTok: true}, ruleTerm("f"), {Kind: KSym, Name: es.RP, IsTok: true}}})
+		tw.Prods = rapid.Permutation(tw.Prods).Draw(t, "twinperm")
+		prods = append(prods, Prod{Terms: []Term{{Kind: KSym, Name: es.TL, IsTok: true}, ruleTerm("f"), {Kind: KSym, Name: es.TR, IsTok: true}}})
+		twin = &tw
+	}
 	// shuffle production order (text order must not matter)
 	perm := rapid.Permutation(prods).Draw(t, "perm")
 	r.Prods = perm
@@ -544,6 +576,13 @@ func GenExpr(t *rapid.T) *ExprSpec {
 	if rapid.Bool().Draw(t, "wrap") {
 		// start rule distinct from the expression rule
 		g.Rules = []Rule{{Name: "s", Prods: []Prod{{Terms: []Term{ruleTerm("e")}}}}, r}
+	}
+	if twin != nil {
+		if rapid.Bool().Draw(t, "twinfirst") && len(g.Rules) == 2 {
+			g.Rules = []Rule{g.Rules[0], *twin, g.Rules[1]}
+		} else {
+			g.Rules = append(g.Rules, *twin)
+		}
 	}
 	g.Style = ri(t, 0, 7, "style")
 	return es
